@@ -711,7 +711,19 @@ def directed_personas(year, seed, n):
         p.ira_mode = '8606'
         p.f8606.update({'part_1_needed': False, 'part_2_needed': False, 'part_3_needed': True, 'total_nonqualified_distributions': round(r.uniform(3000, 9000), 2),
                         'qualified_homebuyer': round(r.choice([0, 1000.0]), 2), 'roth_ira_contributions_basis': round(r.uniform(500, 12000), 2)})
+        if k % 2 == 0:
+            # the whole Roth distribution is a qualified first-time homebuyer distribution: line 21 is zero, nothing is taxable
+            p.f8606['qualified_homebuyer'] = p.f8606['total_nonqualified_distributions']
         out.append(('F5r', p))
+        if True:
+            # Form 8606 filed only to report a nondeductible contribution (part I, no distribution)
+            p = plain_persona(year, 'S', round(r.uniform(50000, 90000), 2), key=f'dirnd:{seed}:{k}')
+            p.n_1099r = 1
+            p.f1099r = [{'box_1': 2500.0, 'box_2a': 2500.0, 'box_4': 0.0, 'ira': True, 'belongs_to': 'taxpayer', 'box_14_1': 0.0}]
+            p.ira_mode = '8606'
+            p.f8606.update({'part_1_needed': True, 'part_2_needed': False, 'part_3_needed': False, 'distribution_or_roth_conversion': False,
+                            'nondeductible_contributions': round(r.uniform(500, 6000), 2)})
+            out.append(('F5r', p))
         # plain (fully taxable) IRA distributions of both spouses
         p = plain_persona(year, 'MFJ', [round(r.uniform(40000, 90000), 2), round(r.uniform(30000, 60000), 2)], key=f'dirira:{seed}:{k}')
         p.n_1099r = 2
